@@ -28,6 +28,7 @@ def _cv(cls):
 
 _CTX_FIELDS = {"_state": 0, "_metrics": 0, "_group": 0, "_token": 1}
 _EXIT_PARAMS = ["exc_type", "exc_val", "exc_tb"]
+_SF = {"_state": 0, "_defaults": 1}
 _QF = {"_loop": 0, "_queue": 1, "_waiting": 2, "_finish_reason": 3}
 _QX = {("self._loop", "create_future"): (116, [])}
 _QM = {"done": (110, ["$recv"]), "set_result": (111, ["$recv", "@0"]), "set_exception": (112, ["$recv", "@0"]),
@@ -74,6 +75,37 @@ GROUPS = {
             ("group_exit", ["gGroupExit"], "GroupExit gGroupExit",
              "intro old v k args w h1\n  unfold gGroupExit\n  cases hge : w.groupExit with\n  | none => minipy_eval\n  | some e =>\n"
              "    cases e with\n    | exc c n => by_cases hc : c = 2 <;> minipy_eval\n    | _ => minipy_eval"),
+        ],
+    },
+    "scopestate": {
+        "import": "Haiway.Bridge.ScopeState", "open": "Haiway.MiniPy Haiway.Bridge.ScopeState Haiway.ScopeState",
+        "defs": {
+            "gState": Target("src/haiway/context/state.py", "ScopeState", "state", ["state", "default"], _SF, {},
+                             containers={"self._state", "self._defaults"}, callables={"state": 120}),
+            "gUpdated": Target("src/haiway/context/state.py", "ScopeState", "updated", ["state"], _SF,
+                               {("self", "__class__"): (121, ["@0"])}, containers={"self._state", "self._defaults"}),
+            "gCurrent": Target("src/haiway/context/state.py", "StateContext", "current", ["state", "default"], {},
+                               {("cls._context", "get"): (102, [])},
+                               method_externals={"state": (122, ["$recv", "@0", "@default|1"])}),
+            "gCtxUpdated": Target("src/haiway/context/state.py", "StateContext", "updated", ["state"], {},
+                                  {("cls._context", "get"): (102, [])}, method_externals={"updated": (123, ["$recv", "@state|0"])},
+                                  ext_functions={"cls": (124, ["@state|0"]), "ScopeState": (121, ["@0"])}),
+        },
+        "obligations": [
+            ("state_lookup", ["gState"], "StateLookup gState",
+             "intro emb d c ty dflt w\n  unfold gState\n"
+             "  cases hf : find d ty <;> cases dflt <;> cases hc : cacheFind c ty <;> cases hok : w.ctorOk <;>\n"
+             "    cases hx : w.ctorFailsWithException <;> ss_eval <;> (try simp_all [assocSet_cacheOfE_new])"),
+            ("updated_refines", ["gUpdated"], "UpdatedRefines gUpdated",
+             "intro d xs c w hb\n  unfold gUpdated\n  cases xs <;> ss_eval"),
+            ("current_refines", ["gCurrent"], "CurrentRefines gCurrent",
+             "intro ty dflt w hl\n  unfold gCurrent\n"
+             "  cases hv : w.var <;> cases hr : w.stateResult\n"
+             "  case none.inl => ss_eval'\n  case some.inl => ss_eval'\n"
+             "  case none.inr e => obtain ⟨c, n, rfl, hs⟩ := hl e hr; ss_eval'\n"
+             "  case some.inr e => obtain ⟨c, n, rfl, hs⟩ := hl e hr; ss_eval'"),
+            ("context_updated_refines", ["gCtxUpdated"], "ContextUpdatedRefines gCtxUpdated",
+             "intro xs w hb hu\n  unfold gCtxUpdated\n  cases hv : w.var <;> ss_eval"),
         ],
     },
     "queue": {
